@@ -280,6 +280,18 @@ def utf8_of_runes(runes):
 
 
 # ---------------------------------------------------------------- cases
+def kstep_sx(st):
+    """one step of a Coq chain_path: (code, cps) | (4, code, cps...) for `..step` | (5, a, b, c-or-None) for a slice"""
+    if st[0] == 4:
+        return '4 ' + kstep_sx(tuple(st[1:]))
+    if st[0] == 5:
+        parts = ['5'] + ['(%s)' % ' '.join(str(x) for x in t) for t in st[1:3]]
+        if st[3] is not None:
+            parts.append('(%s)' % ' '.join(str(x) for x in st[3]))
+        return ' '.join(parts)
+    return ' '.join([str(st[0])] + [str(x) for x in st[1]])
+
+
 class Case:
     """one harness case: a path (bytes), a configuration, documents, a mode"""
 
@@ -336,7 +348,7 @@ class Case:
         if self.keyq:
             parts.append('(keyq %d %s)' % (self.keyq[0], ' '.join(str(x) for x in self.keyq[1])))
         if self.keyc:
-            parts.append('(keyc %s)' % ' '.join('(%s)' % ' '.join(str(x) for x in ([st[0]] + ([st[1]] + list(st[2]) if st[0] == 4 else list(st[1])))) for st in self.keyc))
+            parts.append('(keyc %s)' % ' '.join('(%s)' % kstep_sx(st) for st in self.keyc))
         parts.append('(mode %s))' % self.mode)
         return ' '.join(parts)
 
